@@ -98,6 +98,10 @@ def configurations(rng, thorough):
     # same precision in both threads: no interleaving changes a result even in the current code
     A2 = shared_record(a=-54321)
     cf.append(("2x1-same-precision", setup, [[sl(A)], [sl(A2)]], [G.coq_call("CRead", trace_of(r)) for r in (A, A2)], None))
+    # reads WITH A READER SCHEMA: one parsed reader-schema object shared by the threads, parsed anew for every schedule
+    # (first use).  The harness wraps the "fields" list of that object - data it hands in, nothing of the tree under test -
+    # in a list subclass whose iteration is an instrumented point.
+    cf.extend(resolution_configurations(rng, thorough))
     if thorough:
         cf.append(("3x(2,1,1)", setup, [[sl(AB)], [sl(B)], [sl(C)]], [G.coq_call("CRead", trace_of(r)) for r in (AB, B, C)], None))
         cf.append(("3x2-sample", setup, [[sl(AB)], [sl(BA)], [sl(shared_record(a=5, c=12355))]],
@@ -105,6 +109,50 @@ def configurations(rng, thorough):
         cf.append(("4x1-sample", setup, [[sl(A)], [sl(B)], [sl(C)], [sl(A2)]],
                    [G.coq_call("CRead", trace_of(r)) for r in (A, B, C, A2)], 4000))
     return cf
+
+
+RES_SIG = "C18:read-with-reader-schema:shared-parsed-reader-schema:result-differs-from-sequential"
+
+
+def resolution_schemas(nf):
+    w = {"type": "record", "name": "Wide", "fields": [{"name": "f%02d" % i, "type": "long" if i % 2 else "string"} for i in range(nf)]}
+    r = json.loads(json.dumps(w))
+    for f in r["fields"]:
+        f["aliases"] = [f["name"] + "_old"]
+    r["fields"][-1]["aliases"].append(r["fields"][-1]["name"])
+    r["fields"][-1]["name"] = "renamed"
+    r["fields"].append({"name": "extra", "type": "int", "default": 7})
+    return w, r
+
+
+def resolution_configurations(rng, thorough):
+    out = []
+    for name, nf, nthreads, cap in [("resolve-2threads", 3, 2, 1500), ("resolve-3threads", 2, 3, 1500)] + (
+            [("resolve-2threads-wide", 6, 2, 6000)] if thorough else []):
+        w, r = resolution_schemas(nf)
+        setup = [{"api": "parse_schema", "schema": w, "$out": "W"},
+                 {"api": "parse_schema", "schema": r, "$out": "RS", "$hook_fields": True}]
+        threads = []
+        for t in range(nthreads):
+            rec = {"f%02d" % i: (t * 100 + i if i % 2 else "t%d-%d" % (t, i)) for i in range(nf)}
+            kind = "schemaless" if t != 1 else "container"
+            if kind == "schemaless":
+                threads.append([{"api": "schemaless_reader", "schema": {"$slot": "W"}, "data": G.encode(w, rec, {}),
+                                 "reader_schema": {"$slot": "RS"}}])
+            else:
+                threads.append([{"api": "reader", "data": G.container(w, [rec], {}, "null"), "reader_schema": {"$slot": "RS"}}])
+        out.append(dict(name=name, setup=setup, threads=threads, mcalls=None, cap=cap, fresh_setup=True, sig=RES_SIG))
+    return out
+
+
+def single_preemption(counts):
+    """thread i runs k of its steps, every other thread runs to completion (in index order), thread i finishes"""
+    out = []
+    for i, c in enumerate(counts):
+        others = [j for j, cj in enumerate(counts) if j != i for _ in range(cj)]
+        for k in range(c + 1):
+            out.append([i] * k + others + [i] * (c - k))
+    return out
 
 
 def merges(counts):
@@ -188,6 +236,7 @@ def _run(ctx, scratch):
                                                  "module-level decimal context): all schedules coincide; relying on the stress run")
         secs = max(secs, 6.0)
     stress(ctx, scratch, thorough, secs)
+    first_use(ctx, scratch, thorough)
     ctx.notes["t_stress_s"] = round(time.time() - t0, 1)
 
 
@@ -241,14 +290,27 @@ def forced(ctx, scratch, variant, thorough):
     rng = ctx.rng
     any_points = False
     summary = {}
-    for name, setup, threads, mcalls, cap in configurations(rng, thorough):
-        cnt = run_job(dict(mode="count", setup=setup, threads=threads), scratch, "cnt")
+    for cfg in configurations(rng, thorough):
+        if isinstance(cfg, tuple):
+            cfg = dict(zip(("name", "setup", "threads", "mcalls", "cap"), cfg), fresh_setup=False, sig=None)
+        name, setup, threads, mcalls, cap = cfg["name"], cfg["setup"], cfg["threads"], cfg["mcalls"], cfg["cap"]
+        fresh_setup = cfg["fresh_setup"]
+        cnt = run_job(dict(mode="count", setup=setup, threads=threads, fresh_setup=fresh_setup), scratch, "cnt")
         counts = [len(p) for p in cnt["points"]]
         seq = [r[0] for r in cnt["sequential"]]
         summary[name] = dict(points_per_thread=counts, has_module_context=cnt["has_module_context"])
         # the proxy is behaviour preserving: sequential results under it equal the model's sequential results
-        mseq = core.coq_eval(["show_sequential %s g0 [%s]" % (variant, "; ".join(mcalls))], IMPORTS, ctx.workdir, tag="c18seq")[0]
-        mseq_t = parse_threads("0,0,0|" + mseq)[1]
+        if mcalls is None:
+            # no decimal is decoded: the model (C18_sequential_*: empty shared write set) predicts the sequential result
+            # under every schedule; nothing to evaluate
+            mseq_t = []
+            for i, r in enumerate(seq):
+                if r["st"] != "ok":
+                    ctx.violation("corr:forced-schedule", dict(configuration=name, thread=i, op=c17.describe(threads[i][0])),
+                                  impl=r, model="ok", signature="C18:forced-schedule:sequential-run-raises", found_input=False)
+        else:
+            mseq = core.coq_eval(["show_sequential %s g0 [%s]" % (variant, "; ".join(mcalls))], IMPORTS, ctx.workdir, tag="c18seq")[0]
+            mseq_t = parse_threads("0,0,0|" + mseq)[1]
         for i, (r, m) in enumerate(zip(seq, mseq_t)):
             ctx.count("corr:forced-schedule", (name, "seq", i), nontrivial=True)
             ok = (m is None and r["st"] == "raised") or (m is not None and r["st"] == "ok" and decimals(r) == m)
@@ -265,7 +327,8 @@ def forced(ctx, scratch, variant, thorough):
             scheds = list(merges(counts))
             summary[name]["exhaustive"] = True
         else:
-            seen, scheds = set(), []
+            scheds = single_preemption(counts)          # always: one pre-emption at every point of every thread
+            seen = set(map(tuple, scheds))
             while len(scheds) < cap:
                 w = random_merge(rng, counts)
                 if tuple(w) not in seen:
@@ -274,7 +337,8 @@ def forced(ctx, scratch, variant, thorough):
             summary[name]["exhaustive"] = False
         # an implementation that synchronises on the shared context itself makes most requested orders infeasible
         # (each costs a time-out): probe a few, then sample
-        probe = run_job(dict(mode="forced", setup=setup, threads=threads, schedules=scheds[:: max(1, len(scheds) // 4)][:4]), scratch, "probe")
+        probe = run_job(dict(mode="forced", setup=setup, threads=threads, fresh_setup=fresh_setup,
+                             schedules=scheds[:: max(1, len(scheds) // 4)][:4]), scratch, "probe")
         if any(r["infeasible"] for r in probe["runs"]):
             rng.shuffle(scheds)
             scheds = scheds[:60]
@@ -287,19 +351,19 @@ def forced(ctx, scratch, variant, thorough):
         shards = [scheds[i::nshard] for i in range(nshard)]
         from concurrent.futures import ThreadPoolExecutor
         with ThreadPoolExecutor(max_workers=nshard) as ex:
-            outs = list(ex.map(lambda a: run_job(dict(mode="forced", setup=setup, threads=threads, schedules=a[1]), scratch,
+            outs = list(ex.map(lambda a: run_job(dict(mode="forced", setup=setup, threads=threads, schedules=a[1], fresh_setup=fresh_setup), scratch,
                                                  "fs%s_%d" % (re.sub(r"\W", "", name), a[0])), enumerate(shards)))
         runs = [r for o in outs for r in o["runs"]]
         # the model under the same schedules: each thread's table-read step first, then the instrumented points
         n = len(threads)
         pre = list(range(n))
         expected_pts = 3 if variant == "Current" else 0
-        model_ok = all(c == 3 * len(G_trace(mc)) for c, mc in zip(counts, mcalls)) and variant == "Current"
+        model_ok = mcalls is not None and all(c == 3 * len(G_trace(mc)) for c, mc in zip(counts, mcalls)) and variant == "Current"
         mres = {}
         if model_ok:
             exprs = ["show_schedule_run Current g0 [%s] [%s]%%nat" % ("; ".join(mcalls), "; ".join(map(str, pre + r["schedule"]))) for r in runs]
             mres = dict(zip(range(len(runs)), core.coq_eval(exprs, IMPORTS, ctx.workdir, tag="c18m" + re.sub(r"\W", "", name), shard=400)))
-        else:
+        elif mcalls is not None:
             summary[name]["model_comparison"] = "skipped: points per thread %r do not match the model's 3 per decimal" % counts
         nrace = 0
         first_race = None
@@ -307,7 +371,9 @@ def forced(ctx, scratch, variant, thorough):
             ctx.count("corr:forced-schedule", (name, tuple(r["schedule"])), nontrivial=interleaved(r["schedule"]))
             if r.get("infeasible"):
                 summary[name]["infeasible"] = summary[name].get("infeasible", 0) + 1
-            if any(r["errors"]) or (r["unused"] and not r.get("infeasible")):
+            # (where the number of points a thread passes may depend on the schedule - first-use configurations - unused
+            #  schedule entries are not an error)
+            if any(r["errors"]) or (r["unused"] and not r.get("infeasible") and mcalls is not None):
                 ctx.violation("corr:forced-schedule", dict(configuration=name, schedule=r["schedule"]), impl=dict(errors=r["errors"], unused=r["unused"]),
                               model=None, signature="C18:forced-schedule:scheduler-broken", found_input=False, kind="broken-obligation")
                 continue
@@ -335,12 +401,12 @@ def forced(ctx, scratch, variant, thorough):
             ctx.violation("corr:forced-schedule",
                           dict(configuration=name, schedule=r["schedule"], trace=r["trace"], thread=i,
                                setup=[c17.describe(c) for c in setup], threads=[[c17.describe(c) for c in ops] for ops in threads],
-                               job_pickled=_b64(dict(mode="forced", setup=setup, threads=threads, schedules=[r["schedule"]])),
+                               job_pickled=_b64(dict(mode="forced", setup=setup, threads=threads, schedules=[r["schedule"]], fresh_setup=fresh_setup)),
                                note="%d of %d schedules of this configuration give some thread a result different from its sequential one"
                                     % (nrace, len(runs))),
                           impl=dict(thread=i, under_schedule=dict(status=got[i]["st"], decimals=decimals(got[i]), value=got[i]["val"])),
                           model=dict(sequential=dict(status=seq[i]["st"], decimals=decimals(seq[i]), value=seq[i]["val"])),
-                          signature=F4_SIG if decimals(seq[i]) != decimals(got[i]) else "C18:forced-schedule:result-differs-from-sequential",
+                          signature=F4_SIG if decimals(seq[i]) != decimals(got[i]) else (cfg["sig"] or "C18:forced-schedule:result-differs-from-sequential"),
                           found_input=True)
     ctx.notes["forced_schedule"] = summary
     ctx.sample(dict(forced_schedule=summary))
@@ -406,6 +472,29 @@ def stress(ctx, scratch, thorough, secs):
                       impl=dict(concurrent=m["got"]), model=dict(sequential=m["expected"]), signature=sig, found_input=True)
 
 
+def first_use(ctx, scratch, thorough):
+    """first concurrent use of a freshly parsed, shared reader schema (schema resolution), threads released by a barrier"""
+    nf, nthreads = 120, (8 if thorough else 4)
+    w, r = resolution_schemas(nf)
+    for f in r["fields"]:
+        f["aliases"] = f.get("aliases", []) + ["%s_v%d" % (f["name"], k) for k in range(8)]
+    payloads = [G.encode(w, {"f%02d" % i: (t * 1000 + i if i % 2 else "t%d-%d" % (t, i)) for i in range(nf)}, {}) for t in range(nthreads)]
+    secs = 20.0 if thorough else 2.0
+    job = dict(mode="firstuse", writer_schema=w, reader_schema=r, payloads=payloads, seconds=secs)
+    out = run_job(job, scratch, "fu", timeout=secs + 120)
+    ctx.notes["first_use_stress"] = dict(threads=nthreads, fields=nf + 1, seconds=secs, rounds=out["rounds"], mismatches=out["n_mismatches"],
+                                         sequential_ok=out["sequential_ok"])
+    for k in range(out["rounds"]):
+        ctx.count("corr:stress", ("first-use", k), nontrivial=True)
+    if out["mismatches"]:
+        m = out["mismatches"][0]
+        ctx.violation("corr:stress", dict(kind="first concurrent use of a shared, freshly parsed reader schema", threads=nthreads,
+                                          round=m["round"], thread=m["thread"], job_pickled=_b64(job),
+                                          writer_schema=str(w)[:600], reader_schema=str(r)[:600]),
+                      impl=dict(concurrent=dict(st=m["got"]["st"], val=m["got"]["val"][:500])),
+                      model=dict(sequential=dict(st=m["expected"]["st"], val=m["expected"]["val"][:500])), signature=RES_SIG, found_input=True)
+
+
 def _rename_slots(c, tag):
     """slot names are per history (P1, N2, ...): make them unique across the histories merged into one job"""
     d = {}
@@ -441,6 +530,11 @@ def replay(ctx, rep):
             return got == seq
         job["seconds"] = min(job.get("seconds", 3), 10)
         out = run_job(job, scratch, "rp", timeout=400)
+        if job["mode"] == "firstuse":
+            print("first-use stress: rounds", out["rounds"], "mismatches", out["n_mismatches"])
+            for m in out["mismatches"][:2]:
+                print(" thread", m["thread"], "got", json.dumps(m["got"])[:300], "| sequential", json.dumps(m["expected"])[:300])
+            return out["n_mismatches"] == 0
         print("stress: mismatches", out["n_mismatches"], "errors", out["errors"])
         for m in out["mismatches"][:3]:
             print(json.dumps(m)[:600])
